@@ -31,7 +31,7 @@ def r06_1(ctx, rule='R06.1'):
     ctx.floor(rule, 'attributes read from expression nodes by the generator', len(reads), 6)
     for c in classes:
         attrs = exprmodel.init_attrs(c)
-        hk, m = exprmodel.hash_key_attrs(ctx.prog, c)
+        hk, weak, m = exprmodel.hash_key_coverage(ctx.prog, c)
         construct = c.qual
         relevant = {a: n for a, n in attrs.items() if a not in IGNORED_ATTRS}
         if not relevant:
@@ -41,6 +41,13 @@ def r06_1(ctx, rule='R06.1'):
             st = 'attribute %s' % a
             if a in hk:
                 ctx.met(rule, construct, st, node, 'covered by hash_key() of %s' % (m.cls.name if m and m.cls else '?'))
+            elif a in weak['lossy']:
+                e = weak['lossy'][a]
+                ctx.violated(rule, construct, st, e,
+                             'enters hash_key() only through the information-destroying expression `%s`: %s nodes that differ in %s can hash '
+                             'equal, so CSE merges them and the form cache confuses the forms' % (src(e)[:90], c.name, a))
+            elif a in weak['unknown']:
+                ctx.undecided(rule, construct, st, weak['unknown'][a], 'enters hash_key() through `%s`, injectivity not decided' % src(weak['unknown'][a])[:90])
             else:
                 by_gen = a in reads
                 ctx.violated(rule, construct, st, node,
@@ -56,6 +63,25 @@ def r06_1(ctx, rule='R06.1'):
         raise AnchorMissing(rule + ': positive control')
 
 
+def hash_combiners(ctx, rule):
+    # every combiner of child hashes keeps the children positional (a - b must not hash like b - a)
+    combs = exprmodel.hash_combiners(ctx.prog)
+    ctx.floor(rule, 'uses of the child hashes in hash(self, child_hashes) methods', len(combs), 1)
+    for m, verdict, node, why in combs:
+        st = 'child hashes in %s.hash: %s' % (m.cls.name if m.cls else '?', verdict)
+        if verdict == 'positional':
+            ctx.met(rule, m.qual, st, node, why)
+        elif verdict in ('order-destroying', 'dropped'):
+            ev = exprmodel.noncommutative_evidence(m.cls) if m.cls else None
+            if ev is not None or verdict == 'dropped':
+                ctx.violated(rule, m.qual, st, node, why + '; the class represents operators whose operands are not interchangeable (`%s`): '
+                             'mirrored subexpressions are merged by CSE and operand-swapped forms share a cache entry' % (src(ev) if ev is not None else 'children dropped'))
+            else:
+                ctx.undecided(rule, m.qual, st, node, why + '; commutativity of the class not decided')
+        else:
+            ctx.undecided(rule, m.qual, st, node, why)
+
+
 def r06_2(ctx):
     h = ctx.prog.func(VF + '.Expr.hash')
     r = guards.returns_of(h.node)[-1].value
@@ -65,6 +91,7 @@ def r06_2(ctx):
     ok = t.startswith('hash(') and len(present) == 4
     ctx.decide('R06.2', h.qual, src(r), ok if ok else (False if t.startswith('hash(') else None), r,
                'structural hash must combine type, shape, hash_key and the child hashes; missing: %s' % sorted(set(parts) - set(present)))
+    hash_combiners(ctx, 'R06.2')
     cse = ctx.prog.func(VF + '.VForm.extract_common_expressions')
     t = src(cse.node).replace(' ', '')
     ok = 'self.transform(lambdae:varifhashes[e]==helseNone)' in t and 'hashes=self.compute_recursive(lambdae,child_hashes:e.hash(child_hashes))' in t
